@@ -320,6 +320,157 @@ Section Runs.
   Qed.
 End Runs.
 
+(* ================================================================== (1)+(2): file order with chart files *)
+Lemma flat_map_perm {A B} (f : A -> list B) l l' : Permutation l l' -> Permutation (flat_map f l) (flat_map f l').
+Proof.
+  induction 1 as [|x l l' _ IH|x y l|l l' l'' _ IH1 _ IH2]; cbn [flat_map].
+  - reflexivity.
+  - apply Permutation_app_head. exact IH.
+  - rewrite !app_assoc. apply Permutation_app_tail. apply Permutation_app_comm.
+  - transitivity (flat_map f l'); assumption.
+Qed.
+
+Lemma forallb_perm {A} (p : A -> bool) l l' : Permutation l l' -> forallb p l = true -> forallb p l' = true.
+Proof.
+  intros Hp Hb. apply forallb_forall. intros x Hx. rewrite forallb_forall in Hb. apply Hb.
+  apply (Permutation_in _ (Permutation_sym Hp) Hx).
+Qed.
+
+(* the verdict of the chart look-ups (Settings::try_from + the look-ups of the parser over the whole journal) does not
+   depend on the order of the transactions: in either mode it is a conjunction of conditions on the configuration and
+   on every transaction by itself (Charts_proofs.load_iff, strict_run / lax_run) *)
+Lemma load_ok_perm cf j j' : Permutation j j' ->
+  (exists x, Charts.load cf j = Ok x) -> exists x', Charts.load cf j' = Ok x'.
+Proof.
+  intros Hp [[ch ts] Hl]. apply load_iff in Hl. destruct Hl as (E1 & E2 & E3 & E4 & E5).
+  assert (Hpl : Permutation (config_lks cf ++ journal_lks j) (config_lks cf ++ journal_lks j')).
+  { apply Permutation_app_head. unfold journal_lks. apply flat_map_perm. exact Hp. }
+  assert (R : exists ch', run_lks (Charts.init_charts cf) (config_lks cf ++ journal_lks j') = Ok ch').
+  { destruct (Charts.cf_strict cf) eqn:Es.
+    - assert (Hs0 : Charts.c_strict (Charts.init_charts cf) = true) by exact Es.
+      destruct (strict_run (config_lks cf ++ journal_lks j) _ Hs0) as [_ S1].
+      destruct (strict_run (config_lks cf ++ journal_lks j') _ Hs0) as [_ S2].
+      apply S2. apply (Permutation_Forall Hpl). apply S1. exists ch. exact E3.
+    - assert (Hs0 : Charts.c_strict (Charts.init_charts cf) = false) by exact Es.
+      apply (lax_run (config_lks cf ++ journal_lks j') _ Hs0). apply (Permutation_Forall Hpl).
+      apply (lax_run (config_lks cf ++ journal_lks j) _ Hs0). exists ch. exact E3. }
+  destruct R as [ch' R].
+  destruct (mapM_perm Accept.accept_txn _ _ (Permutation_map Charts.ct_raw Hp) _ E5) as (ts' & E5' & _).
+  exists (ch', ts'). apply load_iff. split; [exact E1|]. split; [exact E2|]. split; [exact R|].
+  split; [exact (forallb_perm _ _ _ Hp E4)|exact E5'].
+Qed.
+
+Lemma chart_journal_ptxns c files : chart_journal c files = res_map (fun ls => map craw_of (concat ls)) (file_ptxns c files).
+Proof. reflexivity. Qed.
+
+Lemma mapM_concat {A B} (f : A -> res B) : forall ls rs,
+  mapM (mapM f) ls = Ok rs -> mapM f (concat ls) = Ok (concat rs).
+Proof.
+  induction ls as [|l ls IH]; intros rs Hm; cbn [mapM concat] in *.
+  - inversion Hm. reflexivity.
+  - destruct (mapM f l) as [r|e] eqn:E; [|discriminate]. destruct (mapM (mapM f) ls) as [rs'|e] eqn:E2; [|discriminate].
+    inversion Hm; subst. cbn [concat]. specialize (IH _ eq_refl).
+    clear -E IH. revert r E. induction l as [|x l IHl]; intros r E; cbn [mapM app] in *.
+    + inversion E. exact IH.
+    + destruct (f x) as [y|e]; [|discriminate]. destruct (mapM f l) as [ys|e] eqn:E3; [|discriminate].
+      inversion E; subst. rewrite (IHl _ eq_refl). reflexivity.
+Qed.
+
+Lemma mapM_concat_err {A B} (f : A -> res B) : forall ls e,
+  mapM (mapM f) ls = Err e -> exists e', mapM f (concat ls) = Err e'.
+Proof.
+  intros ls e Hm. destruct (mapM_err_inv _ _ _ Hm) as (l & e1 & Hin & Hl).
+  destruct (mapM_err_inv _ _ _ Hl) as (x & e2 & Hx & Hfx).
+  apply (mapM_err_any f (concat ls) x e2); [|exact Hfx]. apply in_concat. exists l. split; assumption.
+Qed.
+
+(* file_results in terms of the syntax-level transactions *)
+Lemma file_results_ptxns c files ptss : file_ptxns c files = Ok ptss ->
+  file_results c files = mapM (mapM accept_ptxn) ptss.
+Proof.
+  unfold file_ptxns, file_results, parse_file. generalize (selected7 c files). intros l. revert ptss.
+  induction l as [|f l IH]; intros ptss Hp; cbn [mapM] in *.
+  - inversion Hp. reflexivity.
+  - destruct (parse_journal (rc_journal (r7_base c)) (snd f)) as [pts|e]; [|discriminate].
+    destruct (mapM (fun f0 => parse_journal (rc_journal (r7_base c)) (snd f0)) l) as [ptss'|e]; [|discriminate].
+    inversion Hp; subst. cbn [res_bind mapM]. rewrite (IH _ eq_refl). reflexivity.
+Qed.
+
+Section RunsCharts.
+  Variable H : list N -> list N.
+
+  Lemma gate_verdict_perm c price files files' ptss ptss' :
+    file_ptxns c files = Ok ptss -> file_ptxns c files' = Ok ptss' ->
+    Permutation (concat ptss) (concat ptss') ->
+    chart_gate c price files = Ok tt -> chart_gate c price files' = Ok tt.
+  Proof.
+    intros H1 H2 Hp. unfold chart_gate. destruct (gate_on c); [|exact (fun x => x)].
+    rewrite !chart_journal_ptxns, H1, H2. cbn [res_map res_bind].
+    destruct (Charts.load (chart_config c price) (map craw_of (concat ptss))) as [x|e] eqn:E; [|discriminate].
+    intros _. destruct (load_ok_perm _ _ _ (Permutation_map craw_of Hp) (ex_intro _ x E)) as [x' E']. rewrite E'. reflexivity.
+  Qed.
+
+  (* T07_files_order_irrelevant with chart files: any distribution of the same (syntax-level) transactions *)
+  Lemma files_distribution_charts c files files' p ptss ptss' :
+    file_ptxns c files = Ok ptss -> file_ptxns c files' = Ok ptss' ->
+    Permutation (concat ptss) (concat ptss') ->
+    (forall ls, file_results c files = Ok ls -> distinct_jhdrs (concat ls)) ->
+    same_outcome (run7_console H c files p) (run7_console H c files' p)
+    /\ same_outcome (run7_files H c files p) (run7_files H c files' p).
+  Proof.
+    intros H1 H2 Hp Hd.
+    assert (Q : forall X (K : run_state -> res X),
+              same_outcome (res_bind (run7_prepare H c files p) K) (res_bind (run7_prepare H c files' p) K)).
+    { intros X K. rewrite !run7_prepare_unfold.
+      destruct (price_setup (r7_base c) p) as [pr|e0]; cbn [res_bind]; [|exact I].
+      rewrite !load_dir_results, (file_results_ptxns c files ptss H1), (file_results_ptxns c files' ptss' H2).
+      destruct (mapM (mapM accept_ptxn) ptss) as [ls|e] eqn:E1.
+      - pose proof (mapM_concat _ _ _ E1) as C1.
+        destruct (mapM_perm accept_ptxn _ _ Hp _ C1) as (js' & C2 & Pj).
+        destruct (mapM (mapM accept_ptxn) ptss') as [ls'|e'] eqn:E2.
+        + pose proof (mapM_concat _ _ _ E2) as C2'. rewrite C2 in C2'. inversion C2'; subst js'.
+          cbn [res_map res_bind].
+          assert (Hd' : distinct_jhdrs (concat ls)) by (apply Hd; rewrite (file_results_ptxns c files ptss H1); exact E1).
+          rewrite (jsort_perm_eq _ _ Pj Hd'). unfold cont7.
+          destruct (audit_uuids (rc_audit (r7_base c)) (sort_by jtxn_leb (concat ls'))) as [js|e]; cbn [res_bind]; [|exact I].
+          destruct (chart_gate c (fst pr) files) as [[]|e] eqn:G1; destruct (chart_gate c (fst pr) files') as [[]|e'] eqn:G2; cbn [res_bind].
+          * apply same_outcome_eq. reflexivity.
+          * rewrite (gate_verdict_perm c (fst pr) files files' ptss ptss' H1 H2 Hp G1) in G2. discriminate.
+          * rewrite (gate_verdict_perm c (fst pr) files' files ptss' ptss H2 H1 (Permutation_sym Hp) G2) in G1. discriminate.
+          * exact I.
+        + destruct (mapM_concat_err _ _ _ E2) as [e2 C2']. rewrite C2 in C2'. discriminate.
+      - destruct (mapM_concat_err _ _ _ E1) as [e1 C1].
+        destruct (mapM (mapM accept_ptxn) ptss') as [ls'|e'] eqn:E2; cbn [res_map res_bind]; [|exact I].
+        pose proof (mapM_concat _ _ _ E2) as C2.
+        destruct (mapM_perm accept_ptxn _ _ (Permutation_sym Hp) _ C2) as (js & C1' & _). rewrite C1 in C1'. discriminate. }
+    split.
+    - unfold run7_console. apply (Q _ (fun st => console_with (r7_base c) (rs_md st) (report_text7 H c st))).
+    - unfold run7_files. apply (Q _ (fun st => files_with (r7_base c) (rs_md st) (report_text7 H c st) (export_file7 H c st))).
+  Qed.
+
+  (* ... in particular any order in which the directory is listed, chart files or not *)
+  Lemma files_order_charts c files files' p :
+    Permutation files files' ->
+    (forall ls, file_results c files = Ok ls -> distinct_jhdrs (concat ls)) ->
+    same_outcome (run7_console H c files p) (run7_console H c files' p)
+    /\ same_outcome (run7_files H c files p) (run7_files H c files' p).
+  Proof.
+    intros Hp Hd.
+    assert (Hs : Permutation (selected7 c files) (selected7 c files')) by (apply filter_perm; exact Hp).
+    destruct (file_ptxns c files) as [ptss|e] eqn:E1.
+    - destruct (mapM_perm _ _ _ Hs _ E1) as (ptss' & E2 & Hpl).
+      apply (files_distribution_charts c files files' p ptss ptss' E1 E2 (concat_perm _ _ Hpl) Hd).
+    - (* a file that the grammar refuses: refused in every order *)
+      destruct (mapM_err_inv _ _ _ E1) as (f & e' & Hin & Hf).
+      assert (Hpf : exists code, parse_file (rc_journal (r7_base c)) (snd f) = Err code)
+        by (unfold parse_file; rewrite Hf; eexists; reflexivity).
+      destruct Hpf as [code Hpf].
+      destruct (one_bad_file H c files p f code Hin Hpf) as (e1 & A1 & B1).
+      destruct (one_bad_file H c files' p f code (Permutation_in _ Hs Hin) Hpf) as (e2 & A2 & B2).
+      rewrite A1, A2, B1, B2. split; exact I.
+  Qed.
+End RunsCharts.
+
 (* ================================================================== (3) pattern selectors *)
 Lemma ord_sorted_perm : forall l, Permutation (ord_sorted l) l.
 Proof. intros l. unfold ord_sorted. apply sort_by_perm. Qed.
